@@ -255,7 +255,7 @@ Proof.
   rewrite <- H. unfold bind at 1 3.
   destruct (CharPartition_interval_cover_binary_search_loop1 _ _ _ _ _) as [[i|[i j]]|]; cbn [cover_res]; try reflexivity.
   all: cbn [bind]; rewrite G; unfold bind;
-    destruct (pget (convp p) i) as [ai bi];
+    destruct (pget (convp p) i) as [ai bi]; cbn [fst snd];
     rewrite S1;
     replace (i + 1)%nat with (S i) by lia;
     destruct (CharSet_start s <? ai), (CharSet_end s <? ai), (CharSet_start s <=? bi), (CharSet_end s <=? bi),
@@ -334,6 +334,11 @@ Proof.
   intros B1 B2. induction fuel as [|fuel IH]; intros res i a b j c d Ha Hb Hc Hd; [reflexivity|].
   cbn [fn_merge_partitions_loop1 merge_loop snd].
   change MAX_CHAR with MAXC.
+  (* the loop guard, in whatever form the source writes it *)
+  match goal with
+  | |- merge_res (if ?g then _ else _) = _ =>
+      replace g with ((b <=? MAXC) || (d <=? MAXC)) by (unfold MAXC; gbools; cbn [negb andb orb]; first [reflexivity | (exfalso; lia)])
+  end.
   destruct ((b <=? MAXC) || (d <=? MAXC)) eqn:Econd; cbn [negb]; [|reflexivity].
   pose proof (pget_bounded p1 i B1) as [G1a G1b]. pose proof (pget_bounded p2 j B2) as [G2a G2b].
   unfold SENT, MAXC in *.
